@@ -103,6 +103,8 @@ pub struct Collector {
     /// number of executions slower than the per-case limit; after 8 the shard stops enumerating
     /// (reported as a cap) so that a hang-like defect yields a verdict instead of a timeout
     pub slow: u32,
+    /// slow executions per kind of case (see `slow_kind`)
+    pub slow_kinds: BTreeMap<String, u32>,
     progress: Option<*mut u64>,
     start: std::time::Instant,
 }
@@ -187,6 +189,7 @@ impl Collector {
             counters: BTreeMap::new(),
             notes: Vec::new(),
             slow: 0,
+            slow_kinds: BTreeMap::new(),
             progress,
             start: std::time::Instant::now(),
         }
@@ -243,6 +246,19 @@ impl Collector {
         if let Some(p) = self.progress {
             unsafe { std::ptr::write_volatile(p.add(1), tag) };
         }
+    }
+    /// Records a slow execution of a case of kind `kind`. After 8 of one kind, `skip_kind` turns
+    /// true for that kind only (reported as a cap): one slow construct does not stop the rest of
+    /// the enumeration.
+    pub fn slow_kind(&mut self, kind: &str) {
+        let n = self.slow_kinds.entry(kind.to_string()).or_insert(0);
+        *n += 1;
+        if *n == 8 {
+            self.caps.push(format!("cases of kind '{}' skipped in this shard after 8 slow executions", kind));
+        }
+    }
+    pub fn skip_kind(&self, kind: &str) -> bool {
+        self.slow_kinds.get(kind).copied().unwrap_or(0) >= 8
     }
     pub fn cur_index(&self) -> u64 {
         self.index.saturating_sub(1)
